@@ -46,6 +46,7 @@ func runC14(c *Ctx) {
 	c.Rule("R14.3", 5, "main: every error becomes a message and a non-zero exit, never a stack trace")
 	c.Rule("R14.4", 4, "entry points never return success with a nil result")
 	c.Rule("R14.9", 1, "a nil receiver kept and dereferenced inside the dependency cannot crash emerge: calls that reach it recover")
+	c.Rule("R14.10", 8, "every explicit panic of the dependency that module code reaches has been read and has a reason")
 	c.Rule("R14.5", 1, "a pointer field that some constructor leaves nil is dereferenced only under a nil test")
 	c.Rule("R14.7", 3, "a pointer or interface returned together with an error is dereferenced only where the error is known to be nil")
 	c.Rule("R14.8", 4, "a counting loop is not bounded by a number written in the input")
@@ -141,6 +142,7 @@ func runC14(c *Ctx) {
 	checkErrValueUse(c, "R14.7", scope)
 	checkLoopBounds(c, "R14.8", scope)
 	checkDependencyPanics(c, "R14.9", ri)
+	checkDependencyExplicitPanics(c, "R14.10", ri)
 	examinedLines := map[string]bool{}
 	noteLine := func(p token.Pos) {
 		if p.IsValid() {
